@@ -56,6 +56,21 @@ def ser_ok(make, v, defs=None):
     return accepts(E, jcopy(v)) == accepts(E2, jcopy(v))
 
 
+def ser_sequence_ok(make, v, defs_list):
+    """serialize_json called several times on the SAME tree with different `definitions`: every document is right"""
+    from vf.common import serialize_json, is_json, ref6, deref, parse_element, accepts, jcopy
+
+    E = make()
+    want = accepts(E, jcopy(v))
+    for defs in defs_list:
+        doc = serialize_json(E, definitions=(defs(E) if defs else None))
+        if not is_json(doc) or not refs_resolve(doc) or not ref6(META6, doc, META6):
+            return False
+        if accepts(parse_element(deref(doc)), jcopy(v)) != want:
+            return False
+    return True
+
+
 def ser_reach(make, v, want, defs=None):
     from vf.common import accepts, jcopy
 
@@ -145,6 +160,11 @@ def make():
 return not ser_reach(make, v, {want})
 """
             hs.append(mk(f"c03_{name}__{'acc' if want else 'rej'}", f"{hargs}, v: {vt}", pre, body, kind="witness", tier="thorough" if tier == "thorough" or not want else "quick", timeout=30, group="tree"))
+    hs.append(mk("c03_sequence_definitions", "m: int, v: List[Dict[str, int]]", ["len(v) <= 2", "all(len(d) <= 1 and all(k in ('a', 'b') for k in d) for d in v)"], """
+def make():
+    return Array(_M(m), maxItems=2)
+return ser_sequence_ok(make, v, [lambda E: {"short": Integer(minimum=m)}, None, lambda E: {"short": String()}, lambda E: {"other": Integer(minimum=m)}])
+""", timeout=200, group="tree", covers="one tree serialized 4 times with different caller-supplied definitions (state carried between calls)"))
     return hs
 
 
